@@ -2,7 +2,7 @@
  * per-type factories of valid arguments, value snapshots of the other arguments, classification of the returned
  * value, and the fork-per-case driver.
  *
- * usage: null_guard <listfile>        lines "<row id> <variant letter m|z|n|a> <runtime level> [<global setting>]"
+ * usage: null_guard <listfile>        lines "<row id> <variant letter m|z|n|a|s|p> <runtime level> [<global setting>]"
  *   global setting (the client-controlled globals every guard diagnostic is built from), applied in the child before the call:
  *     default | nameL<n> (program name of n bytes) | nameF<k> (program name containing printf conversions, k-th of NG_FMT_NAMES)
  *             | verL<n> | verF<k> (the same for the program version)
@@ -24,6 +24,7 @@
 #include <signal.h>
 #include <regex.h>
 #include <sys/wait.h>
+#include <sys/stat.h>
 #include <sanitizer/allocator_interface.h>
 
 /* ---- factories: a valid, mid-range value of every parameter type ------------------------------------------ */
@@ -44,9 +45,11 @@ static spif_url_t ng_url(void) { return spif_url_new_from_ptr((spif_charptr_t) "
 static spif_regexp_t ng_regexp(void) { return spif_regexp_new_from_ptr((spif_charptr_t) "al+"); }
 static spif_socket_t ng_socket(void) { return spif_socket_new(); }
 static spif_obj_t ng_elem(int k) { static const char *w[] = { "alpha", "beta", "gamma" }; return SPIF_OBJ(spif_str_new_from_ptr((spif_charptr_t) w[k % 3])); }
+static int ng_nullslots;             /* variant "nullslots": lists carry a NULL element, the way insert_at pads */
 static spif_list_t ng_list(int c) {
     spif_list_t l = c == 0 ? SPIF_LIST_NEW(array) : (c == 1 ? SPIF_LIST_NEW(linked_list) : SPIF_LIST_NEW(dlinked_list));
     int k; for (k = 0; k < 3; k++) SPIF_LIST_APPEND(l, ng_elem(k));
+    if (ng_nullslots) SPIF_LIST_INSERT_AT(l, ng_elem(3), 4);          /* index 3 becomes a NULL placeholder */
     return l;
 }
 static spif_vector_t ng_vector(int c) {
@@ -226,6 +229,9 @@ int main(int argc, char **argv) {
     if (fread(text, 1, (size_t) sz, f) != (size_t) sz) { perror("read"); return 2; }
     text[sz] = 0;
     fclose(f);
+    /* every string the factories hand out ("alpha beta") also resolves as a path: a directory holding an entry of the same name */
+    mkdir("alpha beta", 0755);
+    { FILE *e = fopen("alpha beta/alpha beta", "w"); if (e) { fputs("first line\nsecond line\n", e); fclose(e); } }
     setvbuf(stdout, NULL, _IOLBF, 0);
     printf("CASES %lu\n", (unsigned long) (sizeof(NG_CASES) / sizeof(NG_CASES[0])));
     for (line = strtok_r(text, "\n", &save); line; line = strtok_r(NULL, "\n", &save)) {
